@@ -38,6 +38,9 @@ Fixpoint others (items : list litem) (used : list string) (ia idc : nat) : list 
 Fixpoint rset (l : list rnode) (s : rnode) : list rnode :=
   match l with [] => [s] | c :: r => if String.eqb (rname s) (rname c) then s :: r else c :: rset r s end.
 
+Fixpoint nodup_nat (l : list nat) : bool :=
+  match l with [] => true | x :: r => negb (existsb (Nat.eqb x) r) && nodup_nat r end.
+
 Definition is_root_top (tops : list rnode) (i : nat) : bool :=
   match rcls (nth i tops dummy) with CRoot => true | _ => false end.
 
@@ -56,6 +59,12 @@ Definition write_list (c : cfg) (s : slot) (tops : list rnode) (items : list lit
       let unrooted := flat_map (fun it => match it with LTop i [] => if is_root_top tops i then [] else [nth i tops dummy] | _ => [] end) items in
       let rooted_items := flat_map (fun it => match it with LTop i (x :: q) => [(i, x :: q)] | _ => [] end) items in
       let has_other := existsb (fun it => match it with LTop _ _ => false | _ => true end) items in
+      (* refused before anything is touched: the same unrooted node twice; rooted items from different roots of one name *)
+      let unrooted_idx := flat_map (fun it => match it with LTop i [] => if is_root_top tops i then [] else [i] | _ => [] end) items in
+      let rooted_idx := map fst rooted_items in
+      if negb (nodup_nat unrooted_idx)
+         || existsb (fun i => existsb (fun j => negb (Nat.eqb i j) && String.eqb (rname (nth i tops dummy)) (rname (nth j tops dummy))) rooted_idx) rooted_idx
+      then (Err EAssert, s) else
       let '(arrs, dicts) := others items (map rname unrooted) 0 0 in
       let saved := match unrooted, has_other with
                    | [], false => []
